@@ -98,11 +98,19 @@ func Run(lab *fedlab.Lab, sp *Spelled) *Obs {
 	return o
 }
 
-// SortedReqKeys: the multiset of requests as a sorted list.
+// SortedReqKeys: the SET of distinct requests as a sorted list.  (Identical subgraph requests
+// that are in flight at the same time are coalesced by the loader's single-flight -- property
+// C11 --, so how many copies of one request arrive depends on timing; which requests arrive
+// does not.)
 func (o *Obs) SortedReqKeys() []string {
-	out := make([]string, len(o.Reqs))
-	for i, r := range o.Reqs {
-		out[i] = r.Key()
+	seen := map[string]bool{}
+	var out []string
+	for _, r := range o.Reqs {
+		k := r.Key()
+		if !seen[k] {
+			seen[k] = true
+			out = append(out, k)
+		}
 	}
 	sort.Strings(out)
 	return out
@@ -391,5 +399,116 @@ func FetchedPairs(cfg *fedlab.Config, q *fedlab.Request) []string {
 		}
 		rootSels(op.SelectionSet)
 	}
+	return out
+}
+
+// ---------------------------------------------------------------- fragment-free canonical form
+
+// ExpandQuery prints the operation of a (subgraph) query with every fragment spread replaced by an
+// inline fragment on the fragment's type and no fragment definitions: two minified forms of one
+// operation that differ only in how fragments are named and ordered expand to the same text.
+func ExpandQuery(q string) string {
+	doc, rep := astparser.ParseGraphqlDocumentString(q)
+	if rep.HasErrors() {
+		return "UNPARSABLE:" + q
+	}
+	var sb strings.Builder
+	var sels func(setRef int)
+	dirs := func(refs []int) {
+		for _, d := range refs {
+			sb.WriteString(" ")
+			doc.PrintDirective(d, &sb)
+		}
+	}
+	sels = func(setRef int) {
+		sb.WriteString("{")
+		for i, sref := range doc.SelectionSets[setRef].SelectionRefs {
+			if i > 0 {
+				sb.WriteString(" ")
+			}
+			sel := doc.Selections[sref]
+			switch sel.Kind {
+			case ast.SelectionKindField:
+				f := sel.Ref
+				if doc.FieldAliasIsDefined(f) {
+					sb.WriteString(doc.FieldAliasString(f) + ": ")
+				}
+				sb.WriteString(doc.FieldNameString(f))
+				if doc.FieldHasArguments(f) {
+					sb.WriteString("(")
+					doc.PrintArguments(doc.FieldArguments(f), &sb)
+					sb.WriteString(")")
+				}
+				if doc.FieldHasDirectives(f) {
+					dirs(doc.Fields[f].Directives.Refs)
+				}
+				if doc.FieldHasSelections(f) {
+					sb.WriteString(" ")
+					sels(doc.Fields[f].SelectionSet)
+				}
+			case ast.SelectionKindInlineFragment:
+				fr := sel.Ref
+				sb.WriteString("...")
+				if doc.InlineFragmentHasTypeCondition(fr) {
+					sb.WriteString(" on " + doc.InlineFragmentTypeConditionNameString(fr))
+				}
+				if doc.InlineFragmentHasDirectives(fr) {
+					dirs(doc.InlineFragments[fr].Directives.Refs)
+				}
+				sb.WriteString(" ")
+				sels(doc.InlineFragments[fr].SelectionSet)
+			case ast.SelectionKindFragmentSpread:
+				name := doc.FragmentSpreadNameBytes(sel.Ref)
+				fd, ok := doc.FragmentDefinitionRef(name)
+				if !ok {
+					sb.WriteString("...UNDEFINED")
+					continue
+				}
+				sb.WriteString("... on " + doc.FragmentDefinitionTypeNameString(fd))
+				if doc.FragmentSpreadHasDirectives(sel.Ref) {
+					dirs(doc.FragmentSpreads[sel.Ref].Directives.Refs)
+				}
+				sb.WriteString(" ")
+				sels(doc.FragmentDefinitions[fd].SelectionSet)
+			}
+		}
+		sb.WriteString("}")
+	}
+	for _, rn := range doc.RootNodes {
+		if rn.Kind != ast.NodeKindOperationDefinition {
+			continue
+		}
+		op := doc.OperationDefinitions[rn.Ref]
+		sb.WriteString(op.OperationType.Name())
+		if op.HasVariableDefinitions {
+			sb.WriteString("(")
+			for i, v := range op.VariableDefinitions.Refs {
+				if i > 0 {
+					sb.WriteString(", ")
+				}
+				sb.WriteString("$" + doc.VariableValueNameString(doc.VariableDefinitions[v].VariableValue.Ref) + ": ")
+				doc.PrintType(doc.VariableDefinitions[v].Type, &sb)
+			}
+			sb.WriteString(")")
+		}
+		if op.HasSelections {
+			sels(op.SelectionSet)
+		}
+	}
+	return sb.String()
+}
+
+// SortedExpandedReqKeys: like SortedReqKeys with fragment-free queries.
+func (o *Obs) SortedExpandedReqKeys() []string {
+	seen := map[string]bool{}
+	var out []string
+	for _, r := range o.Reqs {
+		k := r.Sub + "|" + ExpandQuery(r.Query) + "|" + r.Vars
+		if !seen[k] {
+			seen[k] = true
+			out = append(out, k)
+		}
+	}
+	sort.Strings(out)
 	return out
 }
